@@ -50,7 +50,7 @@ def expr_kind(repo, cg, fn, e, key_var=None):
     return None
 
 
-def run(ctx):
+def _run_base(ctx):
     repo, cg = ctx.repo, ctx.cg
     ctx.rule('R04.1', 'schema-typed construction: every value the merge code builds and stores under a notebook field has a JSON kind the nbformat schema allows there', floor=8)
     ctx.rule('R04.2', 'version-aware construction: cells created with nbformat constructors (which always add an id) are stripped of the id unless the notebook\'s cells carry ids', floor=4)
@@ -253,3 +253,54 @@ def run(ctx):
         ctx.inst('R04.4', _mf.DEC + ':resolve_action', repo.norm(c) + ' over ' + str(sorted(roles)), ok,
                  'the maximum ranges over base, local and remote' if ok else
                  'the maximum does not range over all of base, local and remote (%s): the merged notebook can declare a smaller minor than a side whose cells it contains' % sorted(roles), c)
+
+
+def synthesised_values(ctx, rule):
+    """Every value a resolution strategy writes with add/replace is (i) a value of one side taken verbatim (entry .value, or
+    base patched with one side's diff), (ii) the text produced by the three-way text merge, or (iii) stored under a constant
+    key whose schema type R04.1 checks (`nbdime-conflicts` in free-form metadata).  A value the merge code *assembles* from
+    pieces (a partial dict of what both sides agree on, a filtered list ...) and stores under a key taken from the input is
+    not guaranteed to satisfy that field's schema (required sub-keys, closed objects)."""
+    repo, cg = ctx.repo, ctx.cg
+    n = 0
+    for fid, fn in sorted(repo.functions.items()):
+        if not fid.startswith(STR + ':'):
+            continue
+        defs = local_defs(fn)
+
+        def side_value(e, seen=()):
+            if isinstance(e, ast.Attribute) and e.attr in ('value', 'valuelist'):
+                return True
+            if isinstance(e, ast.Call) and (dotted(e.func) or '').split('.')[-1] == 'patch':
+                return True
+            if isinstance(e, ast.Subscript) and isinstance(e.value, ast.Call) and (dotted(e.value.func) or '').split('.')[-1] == 'merge_render':
+                return True
+            if isinstance(e, ast.Name) and e.id not in seen:
+                ds = [v for v, k, st in defs.get(e.id, []) if k in ('assign', 'unpack')]
+                if ds and all(side_value(v, seen + (e.id,)) or (isinstance(v, ast.Call) and (dotted(v.func) or '').split('.')[-1] == 'merge_render') for v in ds):
+                    return True
+            return False
+        for c in calls_in(fn, nested=False):
+            if not (isinstance(c.func, ast.Name) and c.func.id in ('op_add', 'op_replace') and len(c.args) >= 2):
+                continue
+            n += 1
+            key, val = c.args[0], c.args[1]
+            const_key = isinstance(const_val(key), str)
+            ok = side_value(val) or const_key
+            ctx.inst(rule, fid, repo.norm(c), ok,
+                     ('a side\'s own value / the text-merge result' if side_value(val) else 'constant key %r (typed by R04.1)' % const_val(key)) if ok else
+                     'the value `%s` is assembled by the merge code and stored under the input-dependent key `%s`: it is neither side\'s value, so nothing '
+                     'guarantees it meets the schema of that field (e.g. kernelspec requires name and display_name)' % (ast.unparse(val)[:40], ast.unparse(key)[:30]), c)
+    if n < 5:
+        raise AnalysisError('fewer add/replace constructions than expected in merging/strategies.py (%d)' % n)
+
+
+def run(ctx):
+    ctx.rule('R04.5', 'values written by resolution strategies with add/replace are a side\'s own value, the text-merge result, or go under a constant, schema-checked key', floor=5)
+    ctx.rule('R04.6', 'no strategy arm is tried before an arm that settles a non-conflict (C10 R10.5): "removal wins over a transient-only edit" is what keeps e.g. '
+             'execution_count off a cell converted to markdown; a `clear` tried first leaves a null field the target cell type does not admit', floor=1)
+    _run_base(ctx)
+    from . import c10
+    from ..report import run_sub
+    run_sub(ctx, c10, {'R10.5': 'R04.6'})
+    synthesised_values(ctx, 'R04.5')
